@@ -1,0 +1,33 @@
+//! Verification hooks (feature `verif-hooks`): read-only views of the three parts.
+use super::WTinyLFUCache;
+use crate::lfu::tinylfu::TinyLFU;
+use crate::lru::SegmentedCache;
+use crate::LRUCache;
+use core::hash::Hash;
+
+impl<K: Hash, V, KH, FH, RH, WH> WTinyLFUCache<K, V, KH, FH, RH, WH> {
+    /// The window LRU.
+    #[doc(hidden)]
+    pub fn verif_window(&self) -> &LRUCache<K, V, WH> {
+        &self.lru
+    }
+
+    /// The segmented main cache.
+    #[doc(hidden)]
+    pub fn verif_main(&self) -> &SegmentedCache<K, V, FH, RH> {
+        &self.slru
+    }
+
+    /// The frequency estimator.
+    #[doc(hidden)]
+    pub fn verif_estimator(&self) -> &TinyLFU<K, KH> {
+        &self.tinylfu
+    }
+
+    /// The frequency estimator, mutably (only used to pin the sketch seeds right after
+    /// construction).
+    #[doc(hidden)]
+    pub fn verif_estimator_mut(&mut self) -> &mut TinyLFU<K, KH> {
+        &mut self.tinylfu
+    }
+}
